@@ -503,6 +503,20 @@ def run_script(w, steps):
 ELECT_N0 = [("timeout", "n0"), ("msg", "RequestVote", "n0", "n1"), ("msg", "RequestVote", "n0", "n2"),
             ("msg", "VoteResponse", "n1", "n0"), ("msg", "VoteResponse", "n2", "n0"), ("drain",)]
 
+def _conflict_prefix(pre, suf):
+    """n0 leads term 1; ``pre`` commands are replicated and committed everywhere; n0 then accepts ``suf`` more that
+    nobody else gets (cut off); n1 wins term 2 with n2's vote (everything else in flight is lost, n0 still
+    believes it leads term 1) and accepts one command of its own: the conflict sits at index pre+1, which is the
+    TAIL of n0's log when suf == 1 and the middle when suf == 2."""
+    steps = list(ELECT_N0)
+    for _ in range(pre):
+        steps += [("submit", "n0"), ("hb", "n0"), ("drain",), ("hb", "n0"), ("drain",)]
+    steps += [("submit", "n0")] * suf
+    steps += [("timeout", "n1"), ("msg", "RequestVote", "n1", "n2"), ("msg", "VoteResponse", "n2", "n1"), ("drop",),
+              ("submit", "n1")]
+    return steps
+
+
 WORLDS = {
     # election only: every interleaving of timeouts, votes and the new leader's first AppendEntries
     "elect": dict(timeouts=3, max_term=2, max_msgs=12),
@@ -604,6 +618,12 @@ WORLDS = {
     "deposed": dict(prefix=ELECT_N0 + [("timeout", "n1"), ("msg", "RequestVote", "n1", "n0"),
                                        ("msg", "RequestVote", "n1", "n2"), ("msg", "VoteResponse", "n2", "n1")],
                     submits=2, submit_to="any", hbs=1, max_msgs=5),
+    # conflicting suffix of a deposed leader, every shape: common committed prefix 0/1, divergent suffix 1/2
+    # (conflict at the tail / in the middle of the old leader's log); see _conflict_prefix
+    "conflict-p0s1": dict(prefix=_conflict_prefix(0, 1), hbs=2, max_msgs=4),
+    "conflict-p0s2": dict(prefix=_conflict_prefix(0, 2), hbs=2, max_msgs=4),
+    "conflict-p1s1": dict(prefix=_conflict_prefix(1, 1), hbs=2, max_msgs=4),
+    "conflict-p1s2": dict(prefix=_conflict_prefix(1, 2), hbs=2, max_msgs=4),
     # crash / restart of any node anywhere during replication and during a leader change
     "crash-repl": dict(prefix=ELECT_N0, submits=1, hbs=2, crashes=1, timeouts=1, max_term=2, max_msgs=5),
     "crash-change": dict(prefix=ELECT_N0 + [("submit", "n0")], timeouts=2, max_term=3, hbs=1, crashes=1, max_msgs=4),
@@ -682,8 +702,164 @@ def _bfs_job(job):
             "samples": [[_short(lab) for lab in tr] for tr in res.sample_traces[-2:]], "viol": viols}
 
 
+# ---------------------------------------------------------------------------
+# E3 — op sequences on the real Log class against a list reference
+# ---------------------------------------------------------------------------
+from happysimulator.components.consensus.log import Log, LogEntry  # noqa: E402
+
+
+class RefLog:
+    """The documented semantics of consensus/log.py on a plain list of (term, command)."""
+
+    def __init__(self):
+        self.e = []
+        self.commit = 0
+
+    def append(self, term, cmd):
+        self.e.append((term, cmd))
+        return (len(self.e), term, cmd)
+
+    def truncate_from(self, i):  # "remove all entries from the given index onward (inclusive)"
+        if i < 1 or i > len(self.e):
+            return 0
+        removed = len(self.e) - (i - 1)
+        del self.e[i - 1:]
+        self.commit = min(self.commit, i - 1)  # "adjust commit_index if it was beyond the truncation point"
+        return removed
+
+    def advance_commit(self, n):  # returns the newly committed entries
+        if n <= self.commit:
+            return []
+        old = self.commit
+        self.commit = min(n, len(self.e))
+        return [(k + 1,) + self.e[k] for k in range(old, self.commit)]
+
+    def observe(self):
+        n = len(self.e)
+        ent = [(k + 1,) + self.e[k] for k in range(n)]
+        return {"last_index": n, "last_term": self.e[-1][0] if self.e else 0, "len": n, "commit_index": self.commit,
+                "last_entry": ent[-1] if ent else None,
+                "get": [None if i < 1 or i > n else ent[i - 1] for i in range(-1, n + 3)],
+                "entries_after": [ent[i:] for i in range(0, n + 2)],
+                "entries_from": [ent[i - 1:] for i in range(1, n + 3)],
+                "committed": ent[: self.commit], "uncommitted": ent[self.commit:]}
+
+
+def _le(x):
+    return None if x is None else (x.index, x.term, x.command)
+
+
+def _log_observe(lg):
+    n = len(lg)
+    return {"last_index": lg.last_index, "last_term": lg.last_term, "len": n, "commit_index": lg.commit_index,
+            "last_entry": _le(lg.last_entry),
+            "get": [_le(lg.get(i)) for i in range(-1, n + 3)],
+            "entries_after": [[_le(x) for x in lg.entries_after(i)] for i in range(0, n + 2)],
+            "entries_from": [[_le(x) for x in lg.entries_from(i)] for i in range(1, n + 3)],
+            "committed": [_le(x) for x in lg.committed_entries()], "uncommitted": [_le(x) for x in lg.uncommitted_entries()]}
+
+
+def _log_apply(lg, ref, op):
+    """Apply one op to both; returns (impl return, ref return) in comparable form."""
+    if op[0] == "append":
+        return _le(lg.append(op[1], op[2])), ref.append(op[1], op[2])
+    if op[0] == "append_entry":  # documented: re-indexed to keep the sequence
+        lg.append_entry(LogEntry(index=op[3], term=op[1], command=op[2]))
+        ref.append(op[1], op[2])
+        return None, None
+    if op[0] == "truncate_from":
+        return lg.truncate_from(op[1]), ref.truncate_from(op[1])
+    if op[0] == "advance_commit":
+        return [_le(x) for x in lg.advance_commit(op[1])], ref.advance_commit(op[1])
+    raise ValueError(op)
+
+
+def _log_shape(op, n, where):
+    if op[0] in ("truncate_from", "advance_commit"):
+        i = op[1]
+        pos = ("below-1" if i < 1 else "first-and-last" if i == 1 == n else "first" if i == 1 else "last-index" if i == n
+               else "past-the-end" if i > n else "middle")
+        return f"Log/{op[0]}/{pos}/{where}"
+    return f"Log/{op[0]}/{where}"
+
+
+def _log_ops(lg_len):
+    ops = [("append", t, c) for t in (1, 2) for c in ("a", "b")] + [("append_entry", 2, "a", 7)]
+    ops += [("truncate_from", i) for i in range(-1, lg_len + 3)]
+    ops += [("advance_commit", i) for i in range(0, lg_len + 3)]
+    return ops
+
+
+def _log_job(job):
+    """Every op sequence over the alphabet up to ``max_len`` entries / ``depth`` ops (BFS, dedup on the reference
+    state), each executed on a fresh real Log and on the reference; full observation compared after every op."""
+    _kind, max_len, depth = job
+    t0 = time.time()
+    seen = {((), 0): ()}
+    frontier = [()]
+    st = {"kind": "log", "states": 1, "transitions": 0, "nt": 0, "oc": set(), "viol": {}, "samples": [], "depth": 0,
+          "bounds": {"max_entries": max_len, "max_ops": depth, "terms": [1, 2], "commands": ["a", "b"],
+                     "ops": "append / append_entry / truncate_from(i) / advance_commit(i), i from below 1 to past the end"}}
+    for d in range(depth):
+        nxt = []
+        for seq in frontier:
+            lg0, ref0 = Log(), RefLog()
+            for op in seq:
+                _log_apply(lg0, ref0, op)
+            n = len(ref0.e)
+            for op in _log_ops(n):
+                if op[0].startswith("append") and n >= max_len:
+                    continue
+                lg, ref = Log(), RefLog()
+                for o in seq:
+                    _log_apply(lg, ref, o)
+                st["transitions"] += 1
+                try:
+                    ri, rr = _log_apply(lg, ref, op)
+                    obs, want = _log_observe(lg), ref.observe()
+                except Exception as exc:  # noqa: BLE001
+                    ri, rr, obs, want = repr(exc), None, {}, {"raised": False}
+                bad = None
+                if ri != rr:
+                    bad = ("return", ri, rr)
+                else:
+                    for k in want:
+                        if obs.get(k) != want[k]:
+                            bad = (k, obs.get(k), want[k])
+                            break
+                if op[0] == "truncate_from" and n and 1 <= op[1] <= n:
+                    st["nt"] += 1
+                st["oc"].add(digest((want["get"], want["commit_index"])))
+                if bad:
+                    fp = _log_shape(op, n, bad[0])
+                    if fp not in st["viol"]:
+                        st["viol"][fp] = (f"Log after ops {list(seq)} (entries {ref0.e}, commit {ref0.commit}): {op} -> "
+                                          f"{bad[0]} is {bad[1]!r}, documented semantics give {bad[2]!r}",
+                                          {"driver": "log-ops", "ops": [list(o) for o in seq + (op,)]})
+                    continue
+                key = (tuple(ref.e), ref.commit)
+                if key not in seen:
+                    seen[key] = seq + (op,)
+                    nxt.append(seq + (op,))
+                    if len(st["samples"]) < 2 and len(seq) == 3:
+                        st["samples"].append([list(o) for o in seq + (op,)])
+        frontier = nxt
+        st["depth"] = d + 1
+        if not frontier:
+            break
+    st["states"] = len(seen)
+    st["exhaustive_states"] = not frontier
+    st["oc"] = len(st["oc"])
+    st["wall"] = time.time() - t0
+    return st
+
+
 def _job(job):
-    return _bfs_job(job) if job[0] == "bfs" else _live_subtree(job[1:])
+    if job[0] == "bfs":
+        return _bfs_job(job)
+    if job[0] == "log":
+        return _log_job(job)
+    return _live_subtree(job[1:])
 
 
 def _short(lab):
@@ -928,6 +1104,10 @@ QUICK_WORLDS = [
     ("elect-t3", "elect", dict(timeouts=3, max_msgs=4), 300_000),
     ("diverge", "diverge", dict(timeouts=1, max_term=3, hbs=1, max_msgs=4), 300_000),
     ("deposed", "deposed", None, 300_000),
+    ("conflict-p0s1", "conflict-p0s1", dict(hbs=3, max_msgs=5), 300_000),
+    ("conflict-p0s2", "conflict-p0s2", dict(hbs=3, max_msgs=5), 300_000),
+    ("conflict-p1s1", "conflict-p1s1", dict(hbs=3, max_msgs=5), 300_000),
+    ("conflict-p1s2", "conflict-p1s2", dict(hbs=3, max_msgs=5), 300_000),
     ("repl4", "repl4", dict(hbs=0), 300_000),
     ("free", "free", dict(max_msgs=3), 300_000),
     ("crash", "crash-repl", dict(hbs=1, max_msgs=2, timeouts=1), 300_000),
@@ -959,6 +1139,10 @@ THOROUGH_WORLDS = [
     ("elect-t2", "elect", dict(timeouts=2, max_msgs=8), 600_000),
     ("split4", "split4", None, 600_000),
     ("deposed", "deposed", dict(hbs=2, max_msgs=6), 600_000),
+    ("conflict-p0s1", "conflict-p0s1", dict(hbs=3, submits=1, max_msgs=5), 600_000),
+    ("conflict-p0s2", "conflict-p0s2", dict(hbs=3, submits=1, max_msgs=5), 600_000),
+    ("conflict-p1s1", "conflict-p1s1", dict(hbs=3, submits=1, max_msgs=5), 600_000),
+    ("conflict-p1s2", "conflict-p1s2", dict(hbs=3, submits=1, max_msgs=5), 600_000),
     ("releader5", "releader5", None, 600_000),
     ("late-vote", "late-vote", None, 600_000),
 ]
@@ -976,7 +1160,11 @@ def main(tier, seed, only=None):
                     "live-* drivers: executions = complete runs of the real Simulation+Network, transitions = "
                     "owned choice points answered, non-trivial = runs with >= 1 deviation from the default "
                     "delays/timeouts in which the premise (single established leader) held, states = distinct "
-                    "end-to-end observations (premise outcome, leader, per-node apply instants, futures)"),
+                    "end-to-end observations (premise outcome, leader, per-node apply instants, futures). "
+                    "log-ops driver: every op (append, append_entry, truncate_from(i), advance_commit(i) with i from "
+                    "below 1 to past the end) from every reachable state of the real Log class within the entry bound, "
+                    "full public observation compared with a list reference after each op; non-trivial = "
+                    "truncations that actually remove entries"),
               assumptions=["E1 abstracts time: any live timer may fire and any in-flight message may be delivered "
                            "at any moment (safety must not depend on timing); the clock object stays at 0",
                            "a partition is modelled by losing the messages it would block; a crash is the "
@@ -994,6 +1182,8 @@ def main(tier, seed, only=None):
         if only and "bfs-" + dname not in only and dname not in only:
             continue
         jobs.append(("bfs", dname, wname, ov, cap, budget_s))
+    if not only or "log-ops" in only:
+        jobs.append(("log", 3, 6) if tier == "quick" else ("log", 4, 8))
     lives = [(2, 2)] if tier == "quick" else [(1, 2), (2, 2), (3, 2)]
     results, ljobs = [], []
     for k, bound in lives:
@@ -1006,7 +1196,16 @@ def main(tier, seed, only=None):
     results += pmap(_job, jobs + rotate(ljobs, seed), ordered=False)
     live_out = {}
     for st in results:
-        if st["kind"] == "bfs":
+        if st["kind"] == "log":
+            d = run.driver("log-ops", st["bounds"])
+            d.states, d.transitions, d.executions = st["states"], st["transitions"], st["transitions"]
+            d.nontrivial, d.outcomes = st["nt"], st["oc"]
+            d.exhaustive = True  # every op from every reachable reference state within max_entries / max_ops
+            d.extra = {"depth_completed": st["depth"], "all_states_within_max_entries_reached": st["exhaustive_states"]}
+            d.samples, d.wall_s = st["samples"], st["wall"]
+            for fp, (desc, rep) in st["viol"].items():
+                run.violation(fp, desc, rep)
+        elif st["kind"] == "bfs":
             d = run.driver("bfs-" + st["dname"], st["bounds"])
             d.states, d.transitions, d.executions = st["states"], st["transitions"], st["states"]
             d.nontrivial, d.outcomes = st["nt"], st["oc"]
@@ -1045,6 +1244,18 @@ def main(tier, seed, only=None):
 def replay(data):
     rep = data["replay"]
     print(f"fingerprint: {data.get('fingerprint')}")
+    if rep.get("driver") == "log-ops":
+        lg, ref = Log(), RefLog()
+        bad = False
+        for op in rep["ops"]:
+            op = tuple(op)
+            ri, rr = _log_apply(lg, ref, op)
+            obs, want = _log_observe(lg), ref.observe()
+            diff = [k for k in want if obs.get(k) != want[k]] + (["return"] if ri != rr else [])
+            print(f"  {op}: returned {ri!r} (reference {rr!r}); entries {obs['get']} commit {obs['commit_index']}"
+                  f" | reference {want['get']} commit {want['commit_index']}" + (f"   !! differs in {diff}" if diff else ""))
+            bad = bad or bool(diff)
+        return 1 if bad else 0
     if rep.get("driver") == "live":
         tr = []
         ch = Chooser(rep["choices"])
